@@ -1,6 +1,7 @@
 (* C02 — Bulk (reference-frame) sampling yields the circuit's measurement distribution. *)
 From Coq Require Import List Bool String ZArith.
 Import ListNotations.
+Require GenProofs_FrameMeas.
 Require Pauli Sem Uniform RefFold Loops.
 Require Import Stab Act Spec SpecProofs GF2 Gen_GateTable Gen_Frame GenProofs_Frame.
 
@@ -15,6 +16,11 @@ Proof. exact frame_do1_correct. Qed.
 Theorem C02_frame_routines_correct_2q :
   forall g f, In (g, f) frame_do2 -> forall ts P, run2 f ts P = run2 (ftab2 g) ts P.
 Proof. exact frame_do2_correct. Qed.
+(* FrameSimulator's measurement / reset routines (do_MX .. do_MRZ, do_RX .. do_RZ), executed symbolically from the source on
+   every run: the recorded flip is omega(basis, frame); the frame keeps (measurement) or loses (reset) exactly the component that
+   anticommutes with the basis; frame randomisation goes along the basis and nowhere else *)
+Theorem C02_frame_measure_reset_routines_match : GenProofs_FrameMeas.framemeas_all_ok = true.
+Proof. exact GenProofs_FrameMeas.frame_measure_reset_routines_match_adjgen. Qed.
 Print Assumptions C02_frame_routines_match_table.
 Print Assumptions C02_frame_routines_correct_2q.
 
